@@ -13,8 +13,12 @@ of ``pp.Tpsa`` (``Tpsa.assemble_matrix_rhs`` itself raises NotImplementedError b
     A = div face_discr - accum,   b = -div rhs_matrix u_b,   x = A^{-1} b = [u, r, p]
 
 requires  sd a valid 2-D/3-D grid (Cartesian, structured simplex, node-perturbed / affine image), constant Lame
-          parameters (mu, lambda > 0), each boundary face entirely Dirichlet or Neumann, >= 1 Dirichlet face; boundary data
-          consistent with the translation t: u_b = t on Dirichlet faces, zero traction on Neumann faces.
+          parameters (mu, lambda > 0), every displacement component of every boundary face either Dirichlet or Neumann (a face may
+          be entirely Dirichlet, entirely Neumann, or component-wise mixed = 'rolling': Dirichlet in some coordinate directions,
+          Neumann in the others, set through BoundaryConditionVectorial.is_dir / is_neu as its docstring prescribes), >= 1 Dirichlet
+          component; boundary data consistent with the translation t ("Dirichlet or mixed boundary data consistent with the
+          translation" in the statement's quantifier): u_b,i = t_i on every Dirichlet component, zero traction on every Neumann
+          component (a translation is strain free, so its traction vanishes in every direction on every face).
 ensures   (1)  stress (1 (x) t) + bound_stress u_b = 0 on every face;
           (2a) the state [u = t in every cell, r = 0, p = 0] satisfies A x = b;
           (2b) requires additionally that A is regular (cond < 1e8): the solve returns exactly that state.
@@ -32,10 +36,14 @@ META = {
     "level": "exploration",
     "engine": "sweep",
     "technique": "run-time contract sweep (bounded stand-in for deduction): postconditions of the real Tpsa.discretize and of the system "
-                 "assembled as documented in the Tpsa class docstring, on enumerated grids x Lame parameters x Dirichlet/mixed layouts; "
-                 "translation basis covers all translations by linearity",
-    "text": "Bounded assurance only on the enumerated family. Deduction not applicable. Robin conditions, Cosserat parameter and "
-            "heterogeneous Lame parameters are not covered (outside the statement).",
+                 "assembled as documented in the Tpsa class docstring, on enumerated grids x Lame parameters x Dirichlet/mixed layouts "
+                 "(face-wise Dirichlet/Neumann mixes and component-wise mixed 'rolling' faces); translation basis covers all "
+                 "translations by linearity",
+    "text": "Bounded assurance only on the enumerated family. Deduction not applicable. Mixed boundary data covers face-wise "
+            "Dirichlet/Neumann mixes and component-wise mixes in the coordinate basis (Dirichlet in some directions, zero-traction "
+            "Neumann in the others on one face); in the quick tier each component-wise layout class runs with one Lame pair per grid "
+            "only. Robin conditions, a non-default BoundaryConditionVectorial.basis, Cosserat parameter and heterogeneous Lame "
+            "parameters are not covered (outside the statement).",
     "note": "the assembly recipe (block structure, signs, accumulation |cell|/mu, |cell|/lambda) is taken from the Tpsa class docstring / "
             "the TPSA paper and is part of the trusted specification; dense numpy solve",
 }
@@ -46,6 +54,10 @@ MUTANTS = """
   M2 tpsa.py discretize: bound_rotation_displacement ``- filters.dir_pass_nd`` -> ``+ filters.dir_pass_nd``   caught by (2a) (angular momentum rows)
   M3 tpsa.py discretize: bound_mass_displacement ``+ filters.dir_pass_nd`` dropped                              caught by (2a) (solid mass rows)
   M4 tpsa.py discretize: ``rotation_displacement = -Rn_bar @ c2f`` -> ``+Rn_bar @ c2f``                          caught by (2a)
+  M5 tpsa.py _create_cell_to_face_maps: rows of c2f zeroed per face (any component Dirichlet -> all nd rows) instead of per component
+       (Neumann components of a rolling face lose their cell contribution)   caught by (2a) on comp-one / comp-roll / comp-mix only
+  M6 tpsa.py _vector_laplace_matrices: ``trm_bnd[dir_faces] = trm_nd[dir_faces]`` -> only on faces with *all* components Dirichlet
+       (Dirichlet component of a rolling face has no bound_stress coefficient)  caught by (1) and (2a) on comp-one / comp-roll / comp-mix only
 """
 
 import warnings
@@ -117,7 +129,10 @@ def grid_specs(pp, rng, quick):
 LAME = [("mu1-lam1", 1.0, 1.0), ("mu2.5-lam0.3", 2.5, 0.3), ("mu0.7-lam10", 0.7, 10.0)]
 
 
-def bc_layouts(rng, nb, n_random):
+def bc_layouts(rng, nb, n_random, nd=None, comp_only=None, n_comp_random=1):
+    """Face-wise layouts: a string with one letter (d/n) per boundary face. Component-wise layouts (only when ``nd`` is given):
+    a ','-separated string with one nd-letter code per boundary face, letter i = condition of displacement component i;
+    ``comp_only=j`` keeps only the j-th (cyclically) of the component-wise layouts (a), (b), (c)."""
     out = [("all-dir", "d" * nb)]
     k = rng.randrange(nb)
     out.append(("one-neu", "d" * k + "n" + "d" * (nb - k - 1)))
@@ -130,7 +145,40 @@ def bc_layouts(rng, nb, n_random):
             k = rng.randrange(nb)
             s = s[:k] + "d" + s[k + 1:]
         out.append(("mix", s))
-    return out
+    if nd is None:
+        return out
+    # component-wise mixed ('rolling') faces: Dirichlet in some directions and zero-traction Neumann in the others on one face
+    proper = ["".join("d" if (m >> i) & 1 else "n" for i in range(nd)) for m in range(1, 2 ** nd - 1)]
+    # (a) a single rolling face (seeded face and code), all other boundary faces fully Dirichlet
+    codes = ["d" * nd] * nb
+    codes[rng.randrange(nb)] = rng.choice(proper)
+    comp = [("comp-one", ",".join(codes))]
+    # (b) a seeded subset (each face with probability 1/2, >= 1 face) carries the same rolling code: Dirichlet in exactly one
+    #     seeded direction k, Neumann in the others; the remaining boundary faces fully Dirichlet
+    k = rng.randrange(nd)
+    code = "".join("d" if i == k else "n" for i in range(nd))
+    sel = [rng.random() < 0.5 for _ in range(nb)]
+    sel[rng.randrange(nb)] = True
+    comp.append(("comp-roll", ",".join(code if s else "d" * nd for s in sel)))
+    # (c) every component of every boundary face seeded independently (fully Dirichlet / fully Neumann faces occur as well);
+    #     >= 1 Dirichlet component and >= 1 rolling face enforced
+    for _ in range(n_comp_random):
+        codes = ["".join(rng.choice("dn") for _ in range(nd)) for _ in range(nb)]
+        if not any(c in proper for c in codes):
+            codes[rng.randrange(nb)] = rng.choice(proper)
+        comp.append(("comp-mix", ",".join(codes)))
+    return out + (comp if comp_only is None else [comp[comp_only % len(comp)]])
+
+
+def parse_layout(layout, nd):
+    """-> boolean (nd, nb): component i of boundary face j is Dirichlet (else zero-traction Neumann), and the component-wise flag."""
+    if "," in layout:
+        codes = layout.split(",")
+        comp = True
+    else:
+        codes = [c * nd for c in layout]
+        comp = False
+    return np.array([[c[i] == "d" for c in codes] for i in range(nd)], dtype=bool).reshape(nd, len(codes)), comp
 
 
 def evaluate(pp, spec, mu, lam, layout, info=None):
@@ -140,8 +188,14 @@ def evaluate(pp, spec, mu, lam, layout, info=None):
     g = build_grid(pp, spec)
     nd, nf, nc = g.dim, g.num_faces, g.num_cells
     bf = g.get_all_boundary_faces()
-    is_dir_b = np.array([c == "d" for c in layout])
-    bc = pp.BoundaryConditionVectorial(g, bf, ["dir" if d else "neu" for d in is_dir_b])
+    is_dir_b, comp = parse_layout(layout, nd)  # (nd, nb)
+    if comp:
+        # component-wise conditions are set the way the BoundaryConditionVectorial docstring prescribes: through is_dir / is_neu
+        bc = pp.BoundaryConditionVectorial(g, bf, ["dir"] * bf.size)
+        bc.is_dir[:, bf] = is_dir_b
+        bc.is_neu[:, bf] = ~is_dir_b
+    else:
+        bc = pp.BoundaryConditionVectorial(g, bf, ["dir" if d else "neu" for d in is_dir_b[0]])
     C = pp.FourthOrderTensor(mu * np.ones(nc), lam * np.ones(nc))
     data = {pp.PARAMETERS: {KW: {"fourth_order_tensor": C, "bc": bc}}, pp.DISCRETIZATION_MATRICES: {KW: {}}}
     discr = pp.Tpsa(KW)
@@ -170,8 +224,8 @@ def evaluate(pp, spec, mu, lam, layout, info=None):
                             sps.diags(np.repeat(g.cell_volumes / mu, rot_dim)), sps.diags(g.cell_volumes / lam)], format="csr")
     A = (div @ face - accum).toarray()
     S, BS = m("stress_displacement_matrix_key").toarray(), m("bound_stress_matrix_key").toarray()
-    is_dir = np.zeros(nf, dtype=bool)
-    is_dir[bf[is_dir_b]] = True
+    is_dir = np.zeros((nd, nf), dtype=bool)  # per displacement component
+    is_dir[:, bf] = is_dir_b
     cf = g.cell_faces.tocoo()
     hmin = np.linalg.norm(g.face_centers[:, cf.row] - g.cell_centers[:, cf.col], axis=0).min()
     sscale = 2 * (mu + lam) * g.face_areas.max() / hmin
@@ -183,13 +237,17 @@ def evaluate(pp, spec, mu, lam, layout, info=None):
     for i in range(nd):
         t = np.eye(nd)[i]
         ub = np.zeros((nd, nf))
-        ub[:, is_dir] = t[:, None]
+        # boundary data of the translation: t_j on every Dirichlet component, zero traction on every Neumann component
+        for j in range(nd):
+            ub[j, is_dir[j]] = t[j]
         uc = np.tile(t, nc)
         s = S @ uc + BS @ ub.ravel("F")
         if np.abs(s).max() > 1e-10 * sscale:
             k = int(np.abs(s).argmax())
             f = k // nd
-            kind = "interior" if f not in set(bf.tolist()) else ("Dirichlet" if is_dir[f] else "Neumann")
+            kind = "interior" if f not in set(bf.tolist()) else (
+                "Dirichlet" if is_dir[:, f].all() else ("Neumann" if not is_dir[:, f].any() else
+                                                        "rolling " + "".join("d" if d else "n" for d in is_dir[:, f])))
             bad.append((O_STRESS, f"t=e_{i}: face {f} ({kind}) component {k % nd}: stress {s[k]!r} (scale {sscale:.2e})"))
         b = -(div @ (rhsm @ ub.ravel("F")))
         exp = np.concatenate([uc, np.zeros(n_rot_c + nc)])
@@ -227,33 +285,44 @@ def run(rep):
     rep.under_contract("pp.Tpsa.discretize")
     rep.trust("assembly recipe of the Tpsa class docstring (block layout, A = div*face - accum, b = -div*rhs*u_b)",
               "grid geometry / divergence operators (C19/C21)", "numpy.linalg.solve")
-    rep.assume("Neumann data for a translation is zero traction; at least one Dirichlet face so that the system is regular")
+    rep.assume("Neumann data for a translation is zero traction (per component on component-wise mixed faces); at least one Dirichlet "
+               "component; the solve clause additionally requires a regular system (cond < 1e8)")
     quick = rep.tier == "quick"
     rng = rep.rng
     with rep.sweep(
         "tpsa translation invariance",
         rule="grids {Cartesian, structured triangle/tetrahedral} x {unperturbed, seeded perturbation of all nodes at several rates, affine "
              "image} x Lame {(1,1),(2.5,0.3),(0.7,10)} x layouts {all Dirichlet, one Neumann face, one Dirichlet face, seeded per-face mixes "
-             "with >=1 Dirichlet}; per case the translation basis e_x,e_y(,e_z) = all translations by linearity; distinct by (grid, Lame, "
-             "layout); non-trivial = perturbed/simplex grid or a Neumann face present",
-        bound="2-D <= 5x4 cells, 3-D <= 3x2x2 hexahedra / 48 tetrahedra; perturbation <= 0.25 h; " + ("2" if quick else "5") + " random layouts",
+             "with >=1 Dirichlet, component-wise mixed: one seeded rolling face (rest Dirichlet) / a seeded subset of faces Dirichlet in one "
+             "seeded direction only (rest Dirichlet) / every component of every boundary face seeded independently}; per case the "
+             "translation basis e_x,e_y(,e_z) = all translations by linearity; distinct by (grid, Lame, layout); non-trivial = "
+             "perturbed/simplex grid or a Neumann face / component present",
+        bound="2-D <= 5x4 cells, 3-D <= 3x2x2 hexahedra / 48 tetrahedra; perturbation <= 0.25 h; " + ("2" if quick else "5") + " random "
+              "face-wise layouts; component-wise: " + ("per grid each of the 3 layout classes once, each with a different Lame pair"
+                                                       if quick else "single rolling face, subset and 4 random layouts for every Lame pair"),
         exhaustive=False,
     ) as sw:
-        n_singular = 0
-        for spec in grid_specs(pp, rng, quick):
+        n_singular = n_comp = n_comp_regular = 0
+        for ig, spec in enumerate(grid_specs(pp, rng, quick)):
             g = build_grid(pp, spec)
             if not cells_valid(g):
                 sw.skip()
                 continue
             nb = g.get_all_boundary_faces().size
-            for tname, mu, lam in LAME:
-                for lname, layout in bc_layouts(rng, nb, 2 if quick else 5):
+            for il, (tname, mu, lam) in enumerate(LAME):
+                # quick: per grid each of the three component-wise layout classes once, each with a different Lame pair (rotating
+                # with the grid index); thorough: all component-wise layouts for every Lame pair
+                for lname, layout in bc_layouts(rng, nb, 2 if quick else 5, nd=g.dim, comp_only=(il + ig) if quick else None,
+                                                n_comp_random=1 if quick else 4):
                     key = (spec["kind"], tuple(spec["n"]), str(spec["pert"]), hash(str(spec["nodes"])), tname, layout)
                     trivial = spec["kind"] == "cart" and spec["pert"] == 0 and lname == "all-dir"
                     info = {}
                     res = evaluate(pp, spec, mu, lam, layout, info)
                     if not info.get("regular", True):
                         n_singular += 1
+                    if lname.startswith("comp-"):
+                        n_comp += 1
+                        n_comp_regular += bool(info.get("regular", False))
                     sw.case(key, nontrivial=not trivial,
                             sample={"grid": {k: v for k, v in spec.items() if k != "nodes"}, "lame": [mu, lam], "layout": layout,
                                     "system_regular": info.get("regular")})
@@ -261,6 +330,8 @@ def run(rep):
                         rep.violation(ob, _signature(spec, lname), inputs={"grid": spec, "mu": mu, "lam": lam, "layout": layout},
                                       detail=detail, confirmed=True)
         rep.extra["cases_with_singular_system_solve_clause_not_applicable"] = n_singular
+        rep.extra["cases_with_component_wise_mixed_faces"] = n_comp
+        rep.extra["cases_with_component_wise_mixed_faces_and_regular_system"] = n_comp_regular
 
 
 def replay(data):
